@@ -157,7 +157,8 @@ def run_tlc(module: str, cfg: str, *, scratch: str, workers: int = 16, coverage:
                 res.initial = int(m.group(1))
             m = _INIT2_RE.search(line)
             if m:
-                res.initial = int(m.group(2))
+                # duplicates among the generated initial states are counted in "states generated"
+                res.initial = int(m.group(1))
             if "depth of the complete state graph search is" in line:
                 res.depth = int(re.search(r"is (\d+)", line).group(1))
             if coverage:
